@@ -883,6 +883,15 @@ func c04R4(c *Ctx, p *Prog, rule string) {
 					sl := backSlice(sq, sliceOpts{ThroughCalls: true, ThroughLoads: true})
 					col := stripConv(t.Idx[0])
 					ok = sliceHas(sl, func(v ssa.Value) bool {
+						// `for color, occ := range b.Colors`: element of a copy of the array at the loop index
+						if ix, isIx := v.(*ssa.Index); isIx {
+							if l, isLd := ix.X.(*ssa.UnOp); isLd && l.Op == token.MUL {
+								if fr, isF := asFieldAddr(l.X); isF && fr.Name() == "Board.Colors" {
+									return sameValue(stripConv(ix.Index), col, 0)
+								}
+							}
+							return false
+						}
 						ia, isIA := v.(*ssa.IndexAddr)
 						if !isIA {
 							return false
@@ -1352,6 +1361,45 @@ func indexRange(v ssa.Value) (lo, hi int64, ok bool) {
 	}
 	if n, ok2 := fullRangeIndexAny(v); ok2 {
 		return 0, n, true
+	}
+	// classic counting loop from a non-zero constant: `for p := Pawn; p <= King; p++`
+	if ph, isPhi := v.(*ssa.Phi); isPhi && len(ph.Edges) == 2 {
+		for i, e := range ph.Edges {
+			k0, isc := constOf(e)
+			if !isc {
+				continue
+			}
+			inc, isInc := stripConv(ph.Edges[1-i]).(*ssa.BinOp)
+			if !isInc || inc.Op != token.ADD || stripConv(inc.X) != ssa.Value(ph) {
+				continue
+			}
+			if one, isOne := constOf(inc.Y); !isOne || one != 1 {
+				continue
+			}
+			blk := ph.Block()
+			if len(blk.Instrs) == 0 {
+				continue
+			}
+			iff, isIf := blk.Instrs[len(blk.Instrs)-1].(*ssa.If)
+			if !isIf {
+				continue
+			}
+			cmp, isCmp := iff.Cond.(*ssa.BinOp)
+			if !isCmp || stripConv(cmp.X) != ssa.Value(ph) {
+				continue
+			}
+			n, isN := constOf(cmp.Y)
+			if !isN {
+				continue
+			}
+			// the body is entered on the true edge (the increment is reachable from it)
+			switch cmp.Op {
+			case token.LSS:
+				return k0, n, true
+			case token.LEQ:
+				return k0, n + 1, true
+			}
+		}
 	}
 	return 0, 0, false
 }
